@@ -541,6 +541,10 @@ func c5Levels(c *Ctx, impls []*types.Named) {
 					d = Desc(call.Call.Args[0])
 					// argument is a field of the receiver (wrapped core or own enabler)
 					ok = strings.HasPrefix(d, fn.Params[0].Name()+".")
+				} else if isCall && call.Call.StaticCallee() != nil && call.Call.StaticCallee().Name() == "Level" && len(call.Call.Args) == 1 {
+					// ... or delegates to the Level() of the object it wraps (itself decided here)
+					d = Desc(call.Call.Args[0])
+					ok = strings.HasPrefix(d, fn.Params[0].Name()+".")
 				}
 				c.Check(ok, "R5.3", name, "return#"+itoa(k+1), r.Pos(), "Level() reports LevelOf(%s) of the wrapped core / own enabler", d)
 			}
